@@ -120,7 +120,7 @@ def check_config(ctx, F, tag):
             ctx.ob("C13.R3.leaf-offset", name + tag, where, okf and okm, "term-provenance", "view{data: carved slice, offset: the parameter}: %s; map_offset() = self.offset: %s" % (okf, okm))
         elif name in NESTED:
             owned, k = NESTED[name]
-            idx = [s for s in sites if s["kind"] == "index"]
+            idx = [s for s in sites if s["kind"] in ("index", "get")]
             consts = sorted(mapped.lin(s["idx"])[1] for s in idx if mapped.lin(s["idx"])[0] is not None and strip_casts(mapped.lin(s["idx"])[0])[:2] == ("param", 1))
             reads_ok = consts == list(range(k))
             nested = [(bi, t) for bi, t in b.calls() if callee_written(t) == "serialize::MemoryMapped::new"]
